@@ -26,6 +26,7 @@ THEOREMS = [
     "TornadoModel.C42.wait_for_exit_outcome",
     "TornadoModel.C42.futOf_eq_spec",
     "TornadoModel.C42.callback_at_most_once",
+    "TornadoModel.C42.reported_child_released",
 ]
 TRUSTED = [
     "os.waitpid(pid, WNOHANG) contract (0 for running, (pid,status) once for a zombie, ChildProcessError afterwards) as simulated by the harness; Linux wait-status macros",
@@ -46,6 +47,7 @@ CLAUSES = {
     "exit callback runs exactly once, for any timing of the exit relative to registration": "callback_exactly_once, callback_at_most_once",
     "with the exit status (negative signal number for signals)": "status_decoding, callback_exactly_once",
     "wait_for_exit resolves with that status or raises CalledProcessError for non-zero statuses when raise_error is set": "wait_for_exit_outcome",
+    "no leak (a reported child leaves _waiting and the loop queue, and has been reaped)": "reported_child_released",
     "several concurrent children": "view_step (per-child projection: other children's events do not interfere) + tie",
 }
 PARALLEL = False
